@@ -13,7 +13,7 @@ pub const KNOWN_TIMEOUT_KINDS: &[i64] = &[];
 fn include_known() -> bool { std::env::var("C08_INCLUDE_KNOWN").is_ok() }
 fn out_code(o: &Args) -> i64 { o.get(0).and_then(|g| g.get(0)).map(|x| i64::try_from(x).unwrap_or(-9)).unwrap_or(-9) }
 fn out_loc(o: &Args) -> String { o.get(2).map(|g| g.iter().map(|x| u8::try_from(x).map(|b| b as char).unwrap_or('?')).collect::<String>()).unwrap_or_default() }
-fn code_name(c: i64) -> &'static str { match c { 0 => "ok", 1 => "err", 2 => "PANIC", 3 => "TIMEOUT", 4 => "ABORT", _ => "?" } }
+fn code_name(c: i64) -> &'static str { match c { 0 => "ok", 1 => "err", 2 => "PANIC", 3 => "TIMEOUT", 4 => "ABORT", 5 => "GARBAGE", _ => "?" } }
 fn is_known(kind: i64, o: &Args) -> bool {
     match out_code(o) { PANIC => KNOWN_CLASSES.contains(&out_loc(o).as_str()), TIMEOUT => KNOWN_TIMEOUT_KINDS.contains(&kind), _ => false }
 }
